@@ -70,6 +70,21 @@ CHECKS = {
             "transform refuses, the product is a well-formed state of the same specification; " + TIE,
             "finite positive factors; commutation with JSON is checked by C04",
             "section 6 C08"),
+    "C09": ("proof",
+            "Coq theorems (exact instance): a == b holds exactly when the two aggregators have the same "
+            "content (primitive, structural parameters, quantity names and code, every number of "
+            "every node with NaN = NaN, children in order, bin keys and bin contents, declared bin "
+            "type and template of sparse containers) - soundness, completeness, reflexivity, "
+            "symmetry, transitivity, copy(); finite tolerances only widen == (and, for every "
+            "arithmetic instance, a wider numeric comparison never turns equal into unequal); " + TIE +
+            ": the truth values of a == b, b == a and a == b at tolerance 2^-40 are compared with "
+            "the model on pairs that differ at exactly one point (spec mutation, one extra fill, "
+            "document mutation), and == is compared with equality of the toJson documents; != and "
+            "the pickle clone are checked on the implementation",
+            "equality of an immutable container with its JSON reload is decided by the "
+            "correspondence and the oracle (no node-level round-trip theorem); NaN centers of a "
+            "CentrallyBin are excluded (compared with the plain ==); Bag of vectors is not modelled",
+            "section 6 C09"),
     "C10": ("proof",
             "Coq theorems for every arithmetic instance: + returns a result only on compatible "
             "operands and raises otherwise; += raises whenever + does, and leaves the left operand "
